@@ -244,3 +244,29 @@ Proof.
   { induction l as [|b [|b2 l'] IHl]; [reflexivity|reflexivity|]. change (blocks_pieces (b :: b2 :: l')) with (b :: blocks_pieces (b2 :: l')). cbn [length]. now rewrite IHl. }
   rewrite G. cbn [length]. now rewrite map_length.
 Qed.
+
+(* ---------- line lists (Upstream-Contact) ---------- *)
+
+Lemma nl_sp_is : nl_sp = 10 :: [32]. Proof. reflexivity. Qed.
+
+Theorem line_list_stable raw :
+  (match splitlines raw with l0 :: _ => strip l0 <> [] | [] => True end) ->
+  convert FLineSep (fval_dumps (convert FLineSep raw)) = convert FLineSep raw.
+Proof.
+  intros H0. cbn [convert fval_dumps]. unfold line_separated. f_equal.
+  pose proof (splitlines_no_lb is_linebreak raw) as Hnl. fold splitlines in Hnl.
+  destruct (splitlines raw) as [|l0 ls]; [reflexivity|]. cbn [map]. rewrite nl_sp_is, join_pad.
+  inversion Hnl as [|? ? Hl0 Hls]; subst.
+  assert (Hs : forall l, no_lb is_linebreak l -> no_lb is_linebreak (strip l)) by (intros l Hl; now apply Forall_strip_by).
+  unfold splitlines. rewrite splitlines_join.
+  - cbn [map]. f_equal; [apply strip_by_idem|]. rewrite !map_map. apply map_ext. intros l.
+    unfold strip at 1. unfold strip_by, lstrip_by. cbn [app drop_while]. change (is_space 32) with true. cbv iota.
+    fold (lstrip_by is_space (strip l)). fold (strip_by is_space (strip l)). apply strip_by_idem.
+  - reflexivity.
+  - constructor; [now apply Hs|]. rewrite Forall_map, Forall_map. eapply Forall_impl; [|exact Hls]. intros l Hl.
+    unfold no_lb. apply Forall_app. split; [repeat constructor|now apply Hs].
+  - discriminate.
+  - destruct ls as [|l1 ls']; [cbn [map last]; exact H0|].
+    change (last (strip l0 :: map (fun y => [32] ++ y) (map strip (l1 :: ls'))) [0]) with (last (map (fun y => [32] ++ y) (map strip (l1 :: ls'))) [0]).
+    rewrite map_map. destruct (exists_last (l := l1 :: ls')) as (pre & z & E); [discriminate|]. rewrite E, map_app. cbn [map]. rewrite last_last. discriminate.
+Qed.
